@@ -99,6 +99,43 @@ def _worker_init(cid):
 
 
 def run_chunk(cid, seed, config, start, stop, digest_upto):
+    """One chunk = one simulated process: the runs of a chunk are executed
+    in a child forked from the worker for this chunk alone, so that whatever
+    state the code under test keeps between requests is a function of the
+    chunk (the earlier runs of the same chunk) and not of which worker
+    happened to serve which chunks before."""
+    import pickle
+    rfd, wfd = os.pipe()
+    pid = os.fork()
+    if pid == 0:
+        status = 1
+        try:
+            os.close(rfd)
+            out = _run_chunk_here(cid, seed, config, start, stop, digest_upto)
+            data = pickle.dumps(("ok", out))
+            status = 0
+        except BaseException as e:      # noqa: BLE001 - reported by parent
+            data = pickle.dumps(("exc", "%s\n%s" % (
+                repr(e), traceback.format_exc())))
+        try:
+            with os.fdopen(wfd, "wb") as w:
+                w.write(data)
+        finally:
+            os._exit(status)
+    os.close(wfd)
+    with os.fdopen(rfd, "rb") as r:
+        data = r.read()
+    os.waitpid(pid, 0)
+    if not data:
+        raise HarnessError("the process of chunk %s/%d-%d died without a "
+                           "result" % (config, start, stop))
+    kind, out = pickle.loads(data)
+    if kind == "exc":
+        raise HarnessError("chunk %s/%d-%d: %s" % (config, start, stop, out))
+    return out
+
+
+def _run_chunk_here(cid, seed, config, start, stop, digest_upto):
     check = _CHECK or load_check(cid)
     _limit_address_space()
     # if a run wedges in C code (no signal delivery) dump stacks and die:
@@ -164,7 +201,7 @@ def load_known(cid):
 # replay files
 
 def write_replay(cid, seed, config, index, case, signature, detail, events,
-                 shrunk_from=None):
+                 shrunk_from=None, earlier=None):
     d = os.path.join(OUT, "replays", cid)
     os.makedirs(d, exist_ok=True)
     body = {"property": cid, "check_version": CHECK_VERSION,
@@ -172,6 +209,8 @@ def write_replay(cid, seed, config, index, case, signature, detail, events,
             "case": case,
             "expect": {"signature": signature, "detail": detail},
             "history": events, "shrunk_from": shrunk_from}
+    if earlier:
+        body["earlier_runs_of_the_process"] = earlier
     name = hashlib.sha256(canon([cid, signature, case]).encode()
                           ).hexdigest()[:16] + ".json"
     path = os.path.join(d, name)
@@ -186,6 +225,10 @@ def replay(cid, path):
         body = json.load(f)
     case = body["case"]
     want = body["expect"]["signature"]
+    # (a violation that depends on what the same process did before - state
+    # kept in the code under test between requests - comes with those runs)
+    for earlier in body.get("earlier_runs_of_the_process") or []:
+        run_case(check, earlier)
     for _ in range(int(getattr(check, "CONFIRM_TRIES", 1))):
         ctx, viol = run_case(check, case, keep_events=True)
         if viol is not None and viol.signature == want:
@@ -532,9 +575,19 @@ def confirm_shrink_write(check, cid, seed, config, i, case, sig, detail):
         if viol is not None and viol.signature == sig:
             break
     if viol is None or viol.signature != sig:
+        # One process serves many requests: the run may have met state that
+        # the code under test kept from the runs before it (a cache, a
+        # default argument, a module variable).  Then the violation belongs
+        # to the sequence: replay the run after the earlier runs of its
+        # chunk, each attempt in a fresh interpreter.
+        path = _confirm_with_history(check, cid, seed, config, i, case, sig,
+                                     detail)
+        if path is not None:
+            return path
         raise HarnessError(
             "violation %s of run %s/%d did not reproduce from its recorded "
-            "case (got %s): the harness is not deterministic" %
+            "case (got %s), nor after the earlier runs of its chunk: the "
+            "harness is not deterministic" %
             (sig, config, i, viol.signature if viol else None))
 
     # (2) minimise, keeping only candidates with the same signature
@@ -568,6 +621,43 @@ def confirm_shrink_write(check, cid, seed, config, i, case, sig, detail):
     return write_replay(cid, seed, config, i, small, sig, viol.detail,
                         ctx.events[-200:],
                         shrunk_from=len(canon(case)))
+
+
+def _confirm_with_history(check, cid, seed, config, i, case, sig, detail):
+    chunk = getattr(check, "CHUNK", 200)
+    start = (i // chunk) * chunk
+    earlier = [make_case(check, seed, config, j) for j in range(start, i)]
+    if not earlier:
+        return None
+    env = dict(os.environ)
+    env["VERIF_OUT"] = scratch_dir("history-")
+
+    def reproduces(prefix):
+        path = write_replay(cid, seed, config, i, case, sig, detail, [],
+                            earlier=prefix)
+        p = subprocess.run([sys.executable, "-m", "detsim", cid, "--replay",
+                            path], env=env, cwd=VERIF, capture_output=True,
+                           text=True, timeout=RUN_TIMEOUT_S * 10)
+        ok = p.returncode == 1 and "violation reproduced" in p.stdout
+        if not ok:
+            try:
+                os.unlink(path)
+            except OSError:
+                pass
+        return path if ok else None
+
+    # the shortest suffix of the earlier runs (1, 2, 4, ... of them) that
+    # brings the violation back
+    k = 1
+    while True:
+        path = reproduces(earlier[-k:])
+        if path is not None:
+            print("note: %s shows only after %d earlier run(s) of the same "
+                  "process: state is kept between requests" % (sig, k))
+            return path
+        if k >= len(earlier):
+            return None
+        k = min(len(earlier), k * 2)
 
 
 def write_evidence(check, cid, tier, seed, agg, wall, selftest, reported,
